@@ -85,6 +85,7 @@ void World::stopLibrary()
     for (DomRT &D : doms) { D.alive = false; D.d = nullptr; }
     for (ForRT &F : forests) { F.alive = false; F.f = nullptr; }
     for (EdgeSlot* e : edges) e->forest = -1;
+    for (Hoard* H : hoards) H->forest = -1;
     removeSeams();
 }
 
@@ -187,6 +188,7 @@ void World::destroyForest(int idx)
     F.alive = false;
     F.f = nullptr;
     for (EdgeSlot* e : edges) if (e->forest == idx) e->forest = -1;
+    for (Hoard* H : hoards) if (H->forest == idx) H->forest = -1;
     if (forest::getForestWithID(fid) != nullptr) {
         failNow("I8", "lifecycle", "getForestWithID of a destroyed forest is not null");
     }
@@ -204,6 +206,7 @@ void World::destroyDomain(int idx)
             F.alive = false;
             F.f = nullptr;
             for (EdgeSlot* e : edges) if (e->forest == int(i)) e->forest = -1;
+            for (Hoard* H : hoards) if (H->forest == int(i)) H->forest = -1;
         }
     }
     domain::destroy(D.d);
@@ -420,6 +423,13 @@ Val World::randomValue(Rng &R, FKind k, int flavour) const
         case FK_EVP: case FK_IDX: {
             if (flavour == 1 && R.chance(2, 3)) return Val::pinf(Val::I);
             if (R.chance(1, 4)) return Val::pinf(Val::I);
+            if (flavour == 3) {
+                // EV+ edge values are longs: values around and beyond the
+                // 32-bit boundaries (stored in 4-byte node slots pairwise)
+                static const long wide[] = { (1L << 31), (1L << 31) + 3, 3000000000L, (1L << 32) - 1,
+                                             (1L << 32), 3L << 32, 6L << 30, (1L << 31) - 1, 5, 0 };
+                return Val::n(wide[R.below(10)]);
+            }
             return Val::n(R.range(0, 12));
         }
         default: {  // EV*: powers of two (exact under float products)
